@@ -255,8 +255,16 @@ def parse_pt(line):
     nr = int(tok[i]); i += 1
     radii = [(pf(tok[i + 2 * k]), pf(tok[i + 2 * k + 1])) for k in range(nr)]; i += 2 * nr
     nl = int(tok[i]); i += 1
-    lsafe = [pf(t) for t in tok[i:i + nl]]
-    return {"safety": safety, "minstep": best, "mindir": bd, "levels": levels, "nbad": nbad, "badp": badp,
+    lsafe = [pf(t) for t in tok[i:i + nl]]; i += nl
+    moved = None
+    if i < len(tok) and tok[i] == "mv" and tok[i + 1] == "1":
+        v = [pf(t) for t in tok[i + 2:i + 2 + 15]]
+        moved = {"dir": v[0:3], "step": v[3], "reached": v[4:7], "after_move_dist": v[7], "after_move_dist_maxstep": v[8],
+                 "after_move_pos": v[9], "after_move_pos_maxstep": v[10], "fresh": v[11], "min_next_step": v[12],
+                 "local_pos_dev_dist": v[13], "local_pos_dev_pos": v[14],
+                 "same_path_dist": int(tok[i + 17]), "same_path_pos": int(tok[i + 18]), "nbad": int(tok[i + 19]),
+                 "badp": [pf(t) for t in tok[i + 20:i + 23]], "levels": int(tok[i + 23])}
+    return {"moved": moved, "safety": safety, "minstep": best, "mindir": bd, "levels": levels, "nbad": nbad, "badp": badp,
             "with_max_step": radii, "level_safety": lsafe}
 
 
@@ -408,6 +416,44 @@ def run(ctx):
             if bad is None and res["nbad"] > 0:
                 bad = ("%d sample point(s) of the sphere of the largest reported safety radius are in another volume, e.g. %r "
                        "(find_safety() = %r, with max_step: %r)" % (res["nbad"], res["badp"], s, res["with_max_step"][:6]))
+            mvd = res["moved"]
+            if bad is None and mvd is not None:
+                # the same point reached by the navigator's own moves (move_internal(distance) and
+                # move_internal(position)) must be in the state of a fresh initialisation there
+                ctx.count("moved-point:levels=%d" % mvd["levels"])
+                if not mvd["same_path_dist"] and not mvd["same_path_pos"]:
+                    # both moves agree with each other but point location at the reached point finds another
+                    # volume path: the straight segment crossed something the navigator did not report (legacy
+                    # masked/overlapping cells in shipped .org.json files) - that is C03's property, not a safety question
+                    ctx.count("moved-point:path-differs-from-point-location(C03)")
+                    if len(ctx.notes) < 3:
+                        ctx.notes.append("navigator and point location disagree after a straight move (C03 territory): point %r dir %r step %r in %s"
+                                         % (p, mvd["dir"], mvd["step"], txt.splitlines()[0][:120]))
+                    mvd = None
+            if bad is None and mvd is not None:
+                sc = max([1.0, mvd["step"]] + [abs(x) for x in mvd["reached"]])
+                sf, mb = mvd["fresh"], mvd["min_next_step"]
+                for key in ("after_move_dist", "after_move_dist_maxstep", "after_move_pos", "after_move_pos_maxstep"):
+                    val = mvd[key]
+                    same = (val == sf) or (val != INF and sf != INF and abs(val - sf) <= 1e-9 * max(abs(val), abs(sf)) + 1e-9 * sc)
+                    if mb < 1e300 and val > mb * (1 + 1e-9) + 1e-12 and not same:
+                        bad = ("find_safety %s = %r exceeds the distance %r to the next boundary (fresh initialisation at the "
+                               "reached point %r gives safety %r)" % (key.replace("_", " "), val, mb, mvd["reached"], sf))
+                    elif not same:
+                        bad = ("find_safety %s = %r differs from the safety %r of a fresh initialisation at the same point %r"
+                               % (key.replace("_", " "), val, sf, mvd["reached"]))
+                    if bad:
+                        break
+                if bad is None and (mvd["local_pos_dev_dist"] > 1e-9 * sc or mvd["local_pos_dev_pos"] > 1e-9 * sc):
+                    bad = ("after move_internal the local position of some level differs from the re-transformed one by %r (distance move) / %r (position move)"
+                           % (mvd["local_pos_dev_dist"], mvd["local_pos_dev_pos"]))
+                if bad is None and not (mvd["same_path_dist"] and mvd["same_path_pos"]):
+                    bad = "volume path after move_internal differs from a fresh initialisation at %r" % (mvd["reached"],)
+                if bad is None and mvd["nbad"] > 0 and not (sf == INF):
+                    bad = ("%d sample point(s) of the safety sphere around the moved point %r are in another volume, e.g. %r"
+                           % (mvd["nbad"], mvd["reached"], mvd["badp"]))
+                if bad:
+                    bad = "after init at the point and a move along %r by %r: %s" % (mvd["dir"], mvd["step"], bad)
             if bad:
                 nanf = nan_normal_faces(res["levels"])
                 sig = F4_SIG if (nanf and (s == INF or s > m)) else None
@@ -420,6 +466,7 @@ def run(ctx):
                               {"geometry": txt, "point": p, "point_hex": [float(x).hex() for x in p], "find_safety": s,
                                "min_find_next_step": m, "direction": res["mindir"], "levels": res["levels"],
                                "find_safety_with_max_step": res["with_max_step"], "level_safety": res["level_safety"],
+                               "moved": res["moved"],
                                "nan_normal_faces": nanf}, signature=sig)
                 if sig is None:
                     found = True
